@@ -244,6 +244,18 @@ let () =
     match String.split_on_char ' ' line with
     | "L1" :: id :: _ -> run_l1 id (kv line)
     | "L2" :: id :: _ -> (try run_l2 id line with Failure m -> Printf.printf "C %s\nX model-driver-failure %s\n.\n" id m)
+    | "SK" :: id :: _ ->
+        (* streaming sink: ops = u<hex> (write_utf8_chunk) | s<hex> (write_str), content type ct=h|t *)
+        let tbl = kv line in
+        let ct = if get tbl "ct" "h" = "h" then CtHtml else CtText in
+        let ops = List.filter (fun o -> o <> "") (String.split_on_char ',' (get tbl "ops" "")) in
+        let ops = List.map (fun o -> let b = unhex (String.sub o 1 (String.length o - 1)) in if o.[0] = 'u' then SkUtf8 (b, ct) else SkStr (b, ct)) ops in
+        let res = sink_run [] ops in
+        Printf.printf "C %s\nS e0\n" id;
+        List.iteri (fun k (ok, _) -> Printf.printf "E K %d %s\n" k (if ok then "k" else "e")) res;
+        Printf.printf "S c%s\n" (hex (List.concat (List.map snd res)));
+        Printf.printf "R 0 %s\n." (if List.exists (fun (ok, _) -> not ok) res then "err:handler" else "ok");
+        print_newline ()
     | "TD" :: id :: _ ->
         let ops = parse_ops (get (kv line) "ops" "E") in
         let pieces = List.filter_map (function Write b -> Some b | End -> None) ops in
